@@ -87,6 +87,10 @@ def extra_objects():
                                             .where(t1.g > fn.Now() - P.Interval(days=1, hours=2)).where(t1.j.contains({"k": "v\\w"})))
         out[f"x.{d}.schema_names"] = lambda Q=Q: (Q.from_(P.Table("t", schema=("db", "My Sch"))).join(P.Table("u", schema="s`q")).on_field("a")
                                                   .select(P.Table("t", schema=("db", "My Sch")).field("co\"l")))
+        # parts built with immutable=False inside an ordinary statement: a render of the statement must not call their (in-place) builder methods
+        out[f"x.{d}.mutable_parts"] = lambda Q=Q: (lambda sub: Q.from_(t1).select(t1.a, sub).groupby(sub).orderby(sub).where(t1.b.isin(Q.from_(t2, immutable=False).select(t2.b))))(
+            Q.from_(t2, immutable=False).select(fn.Max(t2.a)).as_("mx"))
+        out[f"x.{d}.mutable_root"] = lambda Q=Q: Q.from_(t1, immutable=False).select(t1.a.as_("al"), fn.Count("*")).groupby(t1.a.as_("al")).orderby(t1.a.as_("al")).limit(3)
         out[f"x.{d}.upsert_values"] = lambda Q=Q: Q.into(t1).insert(1, "a\\b", {"k": "v\\"}).on_conflict("a").do_update("b", "c\\d")
     return out
 
